@@ -527,6 +527,10 @@ class Bits:
             return self._setauto_no_length_or_offset(s)
         if offset is None:
             offset = 0
+        if offset < 0:
+            raise bitstring.CreationError(f"Can't use a negative offset ({offset}).")
+        if length is not None and length < 0:
+            raise bitstring.CreationError(f"Can't create bitstring of negative length {length}.")
 
         if isinstance(s, io.BytesIO):
             if length is None:
@@ -553,6 +557,10 @@ class Bits:
         with open(pathlib.Path(filename), 'rb') as source:
             if offset is None:
                 offset = 0
+            if offset < 0:
+                raise bitstring.CreationError(f"Can't use a negative offset ({offset}).")
+            if length is not None and length < 0:
+                raise bitstring.CreationError(f"Can't create bitstring of negative length {length}.")
             m = mmap.mmap(source.fileno(), 0, access=mmap.ACCESS_READ)
             if offset == 0:
                 self._filename = source.name
